@@ -18,9 +18,11 @@ SEEDS = {
  "C04-3": ("C04", "patch3.diff", "demo3.rs", "emulated one-shot open with exactly O_PATH|O_DIRECTORY: the re-open that applies O_DIRECTORY is skipped (succeeds on files; F_GETFL lacks O_DIRECTORY)", ["C04", "C01"], "needed O_PATH|O_DIRECTORY in the quick flag sets"),
  "C05-1": ("C05", "patch1.diff", "demo1.rs", "remove_all slow path on a non-empty directory: openat without O_NOFOLLOW (implicit flag removed from the wrapper, one caller forgotten)", ["C05", "C03", "C13"], ""),
  "C05-2": ("C05", "patch2.diff", "demo2.rs", "Rust caller passing O_NOFOLLOW to ProcfsHandle::open_follow on a path ending in a link: the flag is stripped and the link is followed anyway", ["C05", "C07"], "needed open_follow scenarios with O_NOFOLLOW"),
- "C06-1": ("C06", "patch1.diff", "demo1.rs", "see notes", ["C06"], ""),
- "C07-1": ("C07", "patch1.diff", "demo1.rs", "emulated procfs resolver accepts '..' in some position", ["C07"], ""),
- "C07-2": ("C07", "patch2.diff", "demo2.rs", "emulated procfs resolver: trailing slash on a non-directory accepted", ["C07"], ""),
+ "C06-1": ("C06", "patch1.diff", "demo1.rs", "handle that sees host mounts (try_from_fd / plain open), base thread-self, a foreign file bind-mounted on the 'thread-self' symlink plus a tmpfs on <pid>/task: the existence probe now follows, a failing probe silently falls back to 'self' and the lookup succeeds with the thread-group leader's entry instead of EXDEV", ["C06"], ""),
+ "C06-2": ("C06", "patch2.diff", "demo2.rs", "emulated procfs resolver, handle backed by the host /proc, a symlink '-> 1' bind-mounted onto 'self'/'thread-self' inside the five-syscall window between verifying the component and reading its body (readlinkat by name instead of from the verified descriptor): open(self,'status') returns /proc/1/status", ["C06"], "needed a symlink bind source among the racing mounts and the 'object of the requested path' oracle"),
+ "C07-1": ("C07", "patch1.diff", "demo1.rs", "emulated procfs resolver; '..' as the LAST component of a non-following open ('..', './..', '../'): a fast path for the final component sits in front of the '..' check and returns the procfs root / task directory", ["C07"], ""),
+ "C07-2": ("C07", "patch2.diff", "demo2.rs", "emulated procfs resolver; trailing slash on a non-directory ('status/'): empty trailing component dropped, ENOTDIR lost", ["C07"], ""),
+ "C08-2": ("C08", "patch2.diff", "demo2.rs", "caller is root of a USER NAMESPACE owning its mount+pid namespaces (rootless container) on a subset=pid/hidepid host /proc: an extra MOUNT_ATTR_NOATIME makes fsmount fail with EPERM there (locked atime), the caller silently degrades to clones of the masked host /proc", [], "NOT CAUGHT: the user-namespace-root caller is outside the enumerated privilege alphabet {real root, uid 1000 without capabilities}; on the repaired tree the recursion it used to trigger is bounded, what remains is 'existing but masked reported ENOENT' for that caller kind"),
  "C08-1": ("C08", "patch1.diff", "demo1.rs", "privileged caller on a subset=pid / hidepid host /proc: new_unmasked() prefers a clone of the (masked) host /proc over a fresh procfs, so existing entries such as sys/kernel/ostype are reported ENOENT", ["C08"], "needed the 'existing but masked must not be ENOENT for privileged callers' oracle"),
  "C09-1": ("C09", "patch1.diff", "demo1.rs", "openat2 backend; reopen with flag combinations openat(2) silently accepts but openat2 refuses (O_PATH|O_RDWR, O_PATH|O_APPEND, unknown bits): final open switched to openat2", ["C09"], "needed sloppy flag combinations in the flag sets"),
  "C09-2": ("C09", "patch2.diff", "demo2.rs", "reopen from a thread with an unshared descriptor table (unshare(CLONE_FILES)) while the thread-group leader holds another file at the same number: /proc/self instead of /proc/thread-self", ["C09"], "needed the unshared-descriptor-table probe"),
@@ -35,9 +37,11 @@ SEEDS = {
  "C14-2": ("C14", "patch2.diff", "demo2.rs", "Permissions value carrying file-type bits (as returned by fs::metadata().permissions()): '& !S_IFMT' dropped, wrong inode kind or EINVAL", ["C14"], "needed type bits in the Permissions alphabet"),
  "C15-1": ("C15", "patch1-ported.diff", "demo1.rs", "sysctl=1; two trailing-symlink checks in one walk whose directories get the same descriptor number: directory metadata cached by fd number is stale", ["C15"], "ported to the repaired tree (the fix for intermediate links touched the same lines); original patch kept as patch-original.diff"),
  "C15-2": ("C15", "patch2-ported.diff", "demo2.rs", "sysctl=1; the process follows a symlink, then changes its effective uid: the caller's uid is cached for the process lifetime", ["C15"], "ported (import line); needed the 'root that switches euid after first use' caller"),
- "C16-1": ("C16", "patch1.diff", "demo1.rs", "two threads failing concurrently whose random draws collide: check and insert split across two lock acquisitions", ["C16"], ""),
- "C16-2": ("C16", "patch2.diff", "demo2.rs", "see notes", ["C16"], ""),
- "C17-1": ("C17", "patch1.diff", "demo1.rs", "readlink into a caller buffer: off-by-one (NUL terminator written past min(len,size))", ["C17"], ""),
+ "C16-1": ("C16", "patch1.diff", "demo1.rs", "ERROR_MAP becomes an RwLock: contains_key under read(), insert later under write(); two threads failing concurrently whose random draws collide both get the same id (needs the collision AND the check/check/insert/insert interleaving)", ["C16"], ""),
+ "C16-2": ("C16", "patch2.diff", "demo2.rs", "slab rewrite: a stale second pathrs_errorinfo(id) releases the slot a second time; the next two failures that are outstanding together get the same id", ["C16"], ""),
+ "C17-1": ("C17", "patch1.diff", "demo1.rs", "readlink into a caller buffer whose size equals the link length exactly: a 'helpful' NUL terminator is written one byte past the buffer (and inside it for larger buffers)", ["C17"], ""),
+ "C17-2": ("C17", "patch2.diff", "demo2.rs", "exactly the negative descriptor -100 (AT_FDCWD) is accepted by every descriptor-taking C function (validator 'mirrors' the rustix hot-fix pattern)", ["C17"], ""),
+ "C12-2": ("C12", "patch2.diff", "demo2.rs", "two concurrent mkdir_all callers asking for different modes (0755 / 0700): the stricter one refuses to adopt a directory the other just created (new 'not more permissive than requested' check) and fails when it loses the mkdirat race", ["C12"], "needed mixed-mode caller groups in both orders"),
 }
 
 def confirm_info(prop, n):
